@@ -3,7 +3,7 @@
 EXTENDS XrlErr, XrlChunks
 BadOf(i, ev) ==
   IF ev.k = "cls" THEN (IF ClassWhy(ev) = "" THEN {} ELSE {[prop |-> "C03", line |-> i, fn |-> ev.fn, why |-> ClassWhy(ev), argc |-> ev.argc, ret |-> ev.ret, slot |-> ev.slot, code |-> ev.code, n |-> ev.n, witness |-> ev.w]})
-  ELSE IF ev.k \in {"drove", "other"} THEN (IF ev.fn \in Classified THEN {} ELSE {[prop |-> "C03", line |-> i, fn |-> ev.fn, why |-> "function declared in a public header is not in the XrlAPI table"]})
+  ELSE IF ev.k \in {"drove", "other"} THEN (IF ev.fn \in Classified THEN {} ELSE {[prop |-> "C03", note |-> TRUE, line |-> i, fn |-> ev.fn, why |-> "function declared in a public header is not in the XrlAPI table: judged by the rules every function obeys (finite result, error iff sentinel), not by a kind of its own"]})
   ELSE {}
 Judged == JudgedWith(BadOf)
 Static == c = 0 => (KindsDisjoint \/ PrintT("MISMATCH " \o ToJson([prop |-> "C03", layer |-> "spec", why |-> "XrlAPI kinds overlap"])))
